@@ -645,18 +645,16 @@ func ruleR07_3(w *World, r *Report) {
 		if fn == nil {
 			continue
 		}
-		for _, b := range fn.Blocks {
-			for _, in := range b.Instrs {
-				if bo, ok := in.(*ssa.BinOp); ok && (bo.Op == token.EQL || bo.Op == token.NEQ) {
-					x, y := canonName(bo.X), canonName(bo.Y)
-					isCUID := func(n string) bool { return strings.HasSuffix(n, ".CUID") || strings.HasSuffix(n, ".GetCUID()") }
-					// the origin of a received operation against the replica's own client id
-					if isCUID(x) && isCUID(y) && (strings.Contains(x, "opID") != strings.Contains(y, "opID") || strings.Contains(x, "ctx.Client") != strings.Contains(y, "ctx.Client")) {
-						clientSide = true
-					}
+		forEachInstr(fn, func(in ssa.Instruction) {
+			if bo, ok := in.(*ssa.BinOp); ok && (bo.Op == token.EQL || bo.Op == token.NEQ) {
+				x, y := canonName(bo.X), canonName(bo.Y)
+				isCUID := func(n string) bool { return strings.HasSuffix(n, ".CUID") || strings.HasSuffix(n, ".GetCUID()") }
+				// the origin of a received operation against the replica's own client id
+				if isCUID(x) && isCUID(y) && (strings.Contains(x, "opID") != strings.Contains(y, "opID") || strings.Contains(x, "ctx.Client") != strings.Contains(y, "ctx.Client")) {
+					clientSide = true
 				}
 			}
-		}
+		})
 	}
 	r.Check(serverSide || clientSide, "pull-path/own-operation-filter", "server/mongodb/collection_operations.go + client/pkg/internal/datatypes/wired.go", "an origin filter exists",
 		"neither the pull query nor the client's apply path filters operations by their origin; the client subtracts counts instead (excludeDuplicatedOperations), which skips a foreign operation and re-applies an own one when a response was lost")
